@@ -4,6 +4,7 @@ From Ka Require Export Model.Prelude.
 From Ka Require Export Gen.GenFunctions.
 From Coq Require Import Arith.
 Local Open Scope nat_scope.
+Local Open Scope string_scope.
 
 Definition tbl_get (tbl : list (list bool)) (i j : nat) : bool := nth j (nth i tbl []) false.
 
@@ -151,7 +152,7 @@ Definition kind_ix (s : string) : nat := match index_of s kind_names 0 with Some
 Definition type_ix (s : string) : nat := match index_of s type_names 0 with Some i => i | None => 999 end.
 Definition accepts (kind ty : string) : bool := isinst (kind_ix kind) (type_ix ty).
 
-Open Scope string_scope.
+
 Definition widening_ok : bool :=
   accepts "int" "Integral" && accepts "int" "Rational" && accepts "int" "Number"
   && accepts "Fraction" "Rational" && accepts "Fraction" "Number"
